@@ -3,9 +3,11 @@ package loader
 import (
 	"fmt"
 	"github.com/f1bonacc1/process-compose/src/command"
+	"github.com/f1bonacc1/process-compose/src/health"
 	"github.com/f1bonacc1/process-compose/src/templater"
 	"github.com/f1bonacc1/process-compose/src/types"
 	"github.com/rs/zerolog/log"
+	"maps"
 	"path/filepath"
 )
 
@@ -101,7 +103,7 @@ func cloneReplicas(p *types.Project) {
 			if proc.Replicas == 1 {
 				p.Processes[repName] = proc
 			} else {
-				procsToAdd = append(procsToAdd, proc)
+				procsToAdd = append(procsToAdd, replicaCopy(proc))
 			}
 		}
 	}
@@ -111,6 +113,31 @@ func cloneReplicas(p *types.Project) {
 	for _, proc := range procsToAdd {
 		p.Processes[proc.ReplicaName] = proc
 	}
+}
+
+// replicaCopy gives a replica its own copy of everything that is rendered or set per replica
+// (variables, probes), so that one replica's templates are not rendered into another's.
+func replicaCopy(proc types.ProcessConfig) types.ProcessConfig {
+	proc.Vars = maps.Clone(proc.Vars)
+	proc.LivenessProbe = copyProbe(proc.LivenessProbe)
+	proc.ReadinessProbe = copyProbe(proc.ReadinessProbe)
+	return proc
+}
+
+func copyProbe(probe *health.Probe) *health.Probe {
+	if probe == nil {
+		return nil
+	}
+	cp := *probe
+	if probe.Exec != nil {
+		exec := *probe.Exec
+		cp.Exec = &exec
+	}
+	if probe.HttpGet != nil {
+		httpGet := *probe.HttpGet
+		cp.HttpGet = &httpGet
+	}
+	return &cp
 }
 
 func assignExecutableAndArgs(p *types.Project) {
